@@ -2,7 +2,10 @@
 //! imap-proto / tokio-imap code on generated inputs and prints canonical result lines.
 mod bodystruct;
 mod builder;
+mod chains;
 mod client;
+#[path = "../../coq/gen/gen_chains.rs"]
+mod gen_chains;
 mod crash;
 mod dump;
 mod genresp;
@@ -27,6 +30,7 @@ fn main() {
         "crash-gen" => crash::gen(&args[2..]),
         "parse" => parse::main(&args[2..]),
         "owned" => owned::main(&args[2..]),
+        "chains" => chains::main(&args[2..]),
         "builder" => builder::main(&args[2..]),
         "bodystruct" => bodystruct::main(&args[2..]),
         c => {
